@@ -38,7 +38,7 @@ OBS_WEIGHTS = {'export': 5, 'export_nobn': 1.5, 'summary': 3, 'str': 0.7, 'cost'
 
 
 def budget(tier):
-    return {'runs': 2500, 'seconds': 75} if tier == 'quick' else {'runs': 200000, 'seconds': 1500}
+    return {'runs': 4000, 'seconds': 75} if tier == 'quick' else {'runs': 200000, 'seconds': 1500}
 
 
 SYSTEMATIC_OBS = ['export', 'summary', 'cost', 'switch_spec_and_back', 'export_nobn', 'str', 'get_cost', 'nas_summary']
